@@ -4,6 +4,7 @@ package main
 // cubes renderer (hooks in render/march3.go act as a scheduler gate), and determinism records.
 
 import (
+	"bytes"
 	"crypto/sha256"
 	"encoding/binary"
 	"encoding/json"
@@ -11,8 +12,10 @@ import (
 	"math"
 	"math/rand"
 	"os"
+	"os/exec"
 	"path/filepath"
 	"runtime"
+	"strings"
 	"sync"
 	"time"
 
@@ -36,14 +39,14 @@ type schedVec struct {
 
 // pgate parks the main goroutine and the workers at their hooks.
 type pgate struct {
-	mu     sync.Mutex
-	cv     *sync.Cond
-	main   string         // "" running | "send" | "wait"
-	work   map[int]string // wid -> "idle" | "recv" | "done" | "" (running)
-	mtok   int
-	wtok   map[int]int
-	free   bool // gate open: nobody parks
-	nsend  int
+	mu    sync.Mutex
+	cv    *sync.Cond
+	main  string         // "" running | "send" | "wait"
+	work  map[int]string // wid -> "idle" | "recv" | "done" | "" (running)
+	mtok  int
+	wtok  map[int]int
+	free  bool // gate open: nobody parks
+	nsend int
 }
 
 var theGate *pgate
@@ -395,8 +398,82 @@ func c09Record(args []string) error {
 				}
 			}
 		}
+		// concurrent renders run in a child process: a crash of the library there is an observation
+		concurrentInChild(rep)
+		// the same path written again after a longer file (an earlier, finer render)
+		{
+			p := filepath.Join(dir, "again.stl")
+			render.ToSTL(sp, p, render.NewMarchingCubesOctree(23))
+			render.ToSTL(sp, p, render.NewMarchingCubesUniform(11))
+			emit(detObs{"det", "sphere/uniform/11/stl", fmt.Sprintf("over-a-longer-file rep=%d", rep), fileDigest(p), 0})
+		}
+		// 2D
+		for _, gp := range procs {
+			runtime.GOMAXPROCS(gp)
+			p := filepath.Join(dir, "a.dxf")
+			render.ToDXF(ci, p, render.NewMarchingSquaresQuadtree(60))
+			ls, _, _ := readDXFLines(p)
+			xs := []int{}
+			for _, l := range ls {
+				for _, x := range l {
+					xs = append(xs, int(math.Float64bits(x)>>12))
+				}
+			}
+			emit(detObs{"det", "circle/quadtree/60/dxf", fmt.Sprintf("gomaxprocs=%d rep=%d", gp, rep), digestInts(xs), len(ls)})
+			emit(detObs{"det", "circle/quadtree/60/dxf-bytes", fmt.Sprintf("gomaxprocs=%d rep=%d", gp, rep), fileDigest(p), 0})
+			p = filepath.Join(dir, "a.svg")
+			render.ToSVG(ci, p, render.NewMarchingSquaresUniform(40))
+			emit(detObs{"det", "circle/uniform/40/svg", fmt.Sprintf("gomaxprocs=%d rep=%d", gp, rep), fileDigest(p), 0})
+		}
+	}
+	return nil
+}
+
+// concurrentInChild runs `c09-concurrent <rep>` and forwards its records; if the child dies (runtime
+// fault such as "concurrent map writes", panic) a record with digest -1 is emitted instead.
+func concurrentInChild(rep int) {
+	cmd := exec.Command(os.Args[0], "c09-concurrent", fmt.Sprint(rep))
+	var so, se bytes.Buffer
+	cmd.Stdout, cmd.Stderr = &so, &se
+	err := cmd.Run()
+	for _, l := range strings.Split(so.String(), "\n") {
+		if strings.TrimSpace(l) != "" {
+			outMu.Lock()
+			outW.WriteString(l + "\n")
+			outMu.Unlock()
+		}
+	}
+	if err != nil {
+		fault := "child failed: " + err.Error()
+		dump := se.String()
+		for _, mark := range []string{"fatal error: ", "panic: "} {
+			if i := strings.Index(dump, mark); i >= 0 {
+				end := strings.IndexByte(dump[i:], '\n')
+				if end < 0 {
+					end = len(dump) - i
+				}
+				fault = dump[i : i+end]
+				break
+			}
+		}
+		emit(detObs{"det", "concurrent-renders", fmt.Sprintf("rep=%d %s", rep, fault), -1, 0})
+	}
+}
+
+func c09Concurrent(args []string) error {
+	rep := 0
+	if len(args) > 0 {
+		fmt.Sscanf(args[0], "%d", &rep)
+	}
+	sp, _ := sdf.Sphere3D(1)
+	bx, _ := sdf.Box3D(v3.Vec{X: 1, Y: 2, Z: 1.5}, 0.2)
+	un := sdf.Union3D(sdf.Transform3D(sp, sdf.Translate3d(v3.Vec{X: 0.7})), bx)
+	models := []struct {
+		name string
+		s    sdf.SDF3
+	}{{"sphere", sp}, {"union", un}}
+	{
 		// concurrent renders in one process
-		runtime.GOMAXPROCS(ncpu)
 		var wg sync.WaitGroup
 		res := make([][]*sdf.Triangle3, 4)
 		for i := 0; i < 4; i++ {
@@ -428,36 +505,12 @@ func c09Record(args []string) error {
 		for i := 0; i < 4; i++ {
 			emit(detObs{"det", fmt.Sprintf("%s/octree/%d/mem", models[i%2].name, 11+12*(i/2)), fmt.Sprintf("concurrent-octree rep=%d", rep), digestTris(res[i]), len(res[i])})
 		}
-		// the same path written again after a longer file (an earlier, finer render)
-		{
-			p := filepath.Join(dir, "again.stl")
-			render.ToSTL(sp, p, render.NewMarchingCubesOctree(23))
-			render.ToSTL(sp, p, render.NewMarchingCubesUniform(11))
-			emit(detObs{"det", "sphere/uniform/11/stl", fmt.Sprintf("over-a-longer-file rep=%d", rep), fileDigest(p), 0})
-		}
-		// 2D
-		for _, gp := range procs {
-			runtime.GOMAXPROCS(gp)
-			p := filepath.Join(dir, "a.dxf")
-			render.ToDXF(ci, p, render.NewMarchingSquaresQuadtree(60))
-			ls, _, _ := readDXFLines(p)
-			xs := []int{}
-			for _, l := range ls {
-				for _, x := range l {
-					xs = append(xs, int(math.Float64bits(x)>>12))
-				}
-			}
-			emit(detObs{"det", "circle/quadtree/60/dxf", fmt.Sprintf("gomaxprocs=%d rep=%d", gp, rep), digestInts(xs), len(ls)})
-			emit(detObs{"det", "circle/quadtree/60/dxf-bytes", fmt.Sprintf("gomaxprocs=%d rep=%d", gp, rep), fileDigest(p), 0})
-			p = filepath.Join(dir, "a.svg")
-			render.ToSVG(ci, p, render.NewMarchingSquaresUniform(40))
-			emit(detObs{"det", "circle/uniform/40/svg", fmt.Sprintf("gomaxprocs=%d rep=%d", gp, rep), fileDigest(p), 0})
-		}
 	}
 	return nil
 }
 
 func init() {
+	register("c09-concurrent", c09Concurrent)
 	register("c09-replay", c09Replay)
 	register("c09-record", c09Record)
 }
